@@ -4,7 +4,7 @@ import ast
 from ..cast import Poly, ex, poly_of, show
 from ..cbounds import Analyzer, NSPEC, ONE, access_sites, le, nonneg
 from ..report import AnalysisError, Report
-from ..model import call_name
+from ..model import call_name, unparse
 from . import cnative
 from .cnative import SPECPART_C, WRAP_C
 
@@ -144,7 +144,33 @@ def _run_c04_table(repo, sub):
     c04.run(repo, sub, "quick")
 
 
+def spectral_dim_tests(repo, rep):
+    """R-C20-16: whether a spectrum HAS a direction (frequency) axis is decided from its dimensions: a scalar `dir` coordinate left behind by
+    isel(dir=i) / sel(dir=x) is in .coords but is not a dimension, and treating it as one makes len() / diff / sum over it raise."""
+    rep.rule("R-C20-16", "the presence of the spectral dimensions is tested against .dims (never .coords / .variables, which also hold scalar "
+                         "coordinates left by a selection)")
+    A = repo.attrs
+    spectral = {A.DIRNAME, A.FREQNAME}
+    n = 0
+    for fi in repo.all_funcs():
+        if not (fi.qualname.startswith("wavespectra.specarray.") or fi.qualname.startswith("wavespectra.core.")):
+            continue
+        for c in ast.walk(fi.node):
+            if isinstance(c, ast.Compare) and len(c.ops) == 1 and isinstance(c.ops[0], (ast.In, ast.NotIn)) and repo.const(fi.module, c.left) in spectral:
+                n += 1
+                rhs = c.comparators[0]
+                if isinstance(rhs, ast.Attribute) and rhs.attr in ("coords", "variables", "indexes", "_coords"):
+                    rep.fail("R-C20-16", fi.file, c.lineno, fi.qualname, unparse(c)[:100],
+                             f"'{repo.const(fi.module, c.left)}' is looked for among the {rhs.attr}: a 1-D frequency spectrum that still carries a scalar "
+                             f"'{repo.const(fi.module, c.left)}' coordinate (the result of isel / sel along it) is taken for a 2-D one and every statistic raises "
+                             "TypeError (len() of unsized object) instead of returning a result")
+                else:
+                    rep.ok("R-C20-16", f"{fi.file}:{c.lineno} {fi.short}", unparse(c)[:80], "tested against the dimensions")
+    rep.floor("R-C20-16", "tests for the presence of a spectral dimension", n, 3)
+
+
 def run(repo, rep, tier):
+    spectral_dim_tests(repo, rep)
     rep.rule("R-C20-14", "(shared with C07) the wrapper holds the GIL for the whole native call: released, two threads interleave inside partition() "
                          "over the same static work buffers - reads and writes outside what each call initialised, or a concurrent free / malloc")
     from .c07 import gil_held
